@@ -222,7 +222,18 @@ def shortname_from_fullname(fullname: Name) -> Name:
     name = fullname.name
     parts = name.split('@', 1)
     if len(parts) == 2:
-        return name_from_string(unmangle_name(parts[0]))
+        mangled = parts[0]
+        # Find the module separator while the name is still mangled:
+        # a local name may begin with ":" (`:a` is a valid quoted name),
+        # and then the unmangled string cannot be split correctly.
+        seps = list(mangle_re_1.finditer(mangled))
+        if seps:
+            pos = seps[-1].start()
+            return QualName(
+                module=unmangle_name(mangled[:pos]),
+                name=unmangle_name(mangled[pos + 1:]),
+            )
+        return name_from_string(unmangle_name(mangled))
     else:
         return fullname
 
